@@ -4,9 +4,11 @@
 # (4) demo passes without it.  On success stores it under /verif/seeded/<seed_id>/.
 set -u
 SRC="$1"; SID="$2"; PROP="$3"
-WT=/tmp/seedchk/wt
+# SEEDCHK_WT / SEEDCHK_TARGET: run in another scratch worktree (e.g. the agent's own, whose target is warm) so that
+# several confirmations can run side by side.
+WT=${SEEDCHK_WT:-/tmp/seedchk/wt}
 export CARGO_NET_OFFLINE=true
-export CARGO_TARGET_DIR=/tmp/seedchk/target
+export CARGO_TARGET_DIR=${SEEDCHK_TARGET:-/tmp/seedchk/target}
 mkdir -p /tmp/seedchk
 if [ ! -d "$WT" ]; then git -C /repo worktree add -q --detach "$WT" HEAD || exit 3; fi
 cd "$WT" || exit 3
@@ -22,10 +24,10 @@ DEMO=$(ls "$SRC"/demo.* | head -1)
 run_demo() {
   case "$DEMO" in
     *.rs) cp "$DEMO" tests/zz_demo_seed.rs; cargo test --offline --test zz_demo_seed >>"$LOG" 2>&1; R=$?; rm -f tests/zz_demo_seed.rs; return $R;;
-    *.py) cargo build --offline >>"$LOG" 2>&1; ln -sfn "$CARGO_TARGET_DIR" "$WT/target"
+    *.py) cargo build --offline >>"$LOG" 2>&1; LINKED=0; if [ ! -e "$WT/target" ]; then ln -sfn "$CARGO_TARGET_DIR" "$WT/target"; LINKED=1; fi
           ( cd "$WT" && python3 "$DEMO" "$WT" >>"$LOG" 2>&1 ); R=$?
           if [ $R -ne 0 ] && [ $R -ne 1 ]; then ( cd "$WT" && python3 "$DEMO" "$CARGO_TARGET_DIR/debug/pytest-language-server" >>"$LOG" 2>&1 ); R=$?; fi
-          rm -f "$WT/target"; return $R;;
+          [ $LINKED -eq 1 ] && rm -f "$WT/target"; return $R;;
     *) echo "unknown demo type" >>"$LOG"; return 99;;
   esac
 }
